@@ -450,6 +450,12 @@ def rule_drop_nonblocking(m, rep, rid='R5'):
                 rep.sites()
                 if callee_is(t, *BLOCKING):
                     bad.append((b, bi, 'may block in %s' % strip_generics(t['callee_full'])))
+                if callee_is(t, SINK_TRAIT + '::emit', SINK_TRAIT + '::flush', SINK_TRAIT + '::stats') and \
+                        (not t.get('resolved_local') or t.get('resolved_kind') == 'virtual'):
+                    bad.append((b, bi, 'runs the wrapped sink on the dropping thread (%s may block or panic)' % t['callee'].rsplit('::', 1)[-1]))
+                if t.get('indirect') or callee_is(t, 'core::ops::function::Fn::call', 'core::ops::function::FnMut::call_mut',
+                                                  'core::ops::function::FnOnce::call_once') and not t.get('resolved_local'):
+                    bad.append((b, bi, 'runs caller-supplied code on the dropping thread'))
                 if callee_is(t, 'core::result::Result::unwrap', 'core::result::Result::expect', 'core::option::Option::unwrap',
                              'core::option::Option::expect', 'core::panicking::panic', 'core::panicking::panic_fmt',
                              'std::rt::begin_panic', 'core::panicking::assert_failed', 'core::result::unwrap_failed'):
@@ -732,7 +738,13 @@ def rule_handler_plumbing(m, rep):
         srcs += [x for x in cad.all_bodies if x.impl_self and type_head(x.impl_self) == QB and 'Default' in (x.impl_trait or '') and x.name == 'default']
     okn = bool(nb) and all(starts_none(x) for x in srcs) and (derived or len(srcs) > len(nb) or not dflt)
     rep.ob('R2', 'no-handler-by-default', okn, nb[0].where() if nb else '', 'a fresh builder (new() / Default) has handler None')
-    # R3: the task closure is invoked only through the worker's task field, only in run
+    rule_task_only_in_run(m, rep, 'R3')
+
+
+def rule_task_only_in_run(m, rep, rid='R3'):
+    """the task closure is invoked only through the worker's task field, only in the run region (so every hand-off to the
+    wrapped sink is one the loop dequeued, counted and guarded)."""
+    cad = m.cad
     tcs = []
     for b in cad.all_bodies:
         if not in_module_of(b, Q):
@@ -746,4 +758,4 @@ def rule_handler_plumbing(m, rep):
                     tcs.append(b)
     region = private_region(cad, m.run, m.worker)
     ok = bool(tcs) and all(x.path in region for x in tcs)
-    rep.ob('R3', 'task-invoked-only-by-run', ok, m.run.where(), 'the task (and with it the handler) runs only inside the worker loop, i.e. on the background thread' if ok else 'task called from %s' % [x.short() for x in tcs])
+    rep.ob(rid, 'task-invoked-only-by-run', ok, m.run.where(), 'the task (and with it the handler) runs only inside the worker loop, i.e. on the background thread' if ok else 'task called from %s' % [x.short() for x in tcs])
